@@ -125,7 +125,7 @@ static OrderStats orderCheck(int round, size_t nEvents) {
     std::map<int, int> state;   // worker -> 0 nothing yet, 1 after init, 2 after finish began, 3 after finish ended
     for (size_t k = 0; k < nEvents; ++k) {
         const Ev& e = g_log[k];
-        if (e.round != round) continue;
+        if (e.round != round || e.worker < 0) continue;
         int& s = state[e.worker];
         switch (e.kind) {
         case K_INIT: if (s != 0) st.viol++; s = 1; st.ninit++; break;
@@ -172,7 +172,7 @@ static void peCase(int threads, uint64_t yseed, const std::vector<int>& times, c
         std::map<int, std::vector<int> > perWorker;
         for (size_t k = 0; k < nEv; ++k) {
             const Ev& e = g_log[k];
-            if (e.round != (int)r) continue;
+            if (e.round != (int)r || e.worker < 0) continue;
             if (k >= retSeq[r]) retViol++;                    // a callback of round r logged after execute() returned
             if (e.kind == K_EXEC_E) {
                 idx.push_back(e.a); perWorker[e.worker].push_back(e.a);
@@ -236,7 +236,7 @@ struct P2DTask : public Parallel2DExecutor::Task {
         if (okI && ++g_busy[i] > 1) g_shareViolations++;
         if (okJ && j != i && ++g_busy[j] > 1) g_shareViolations++;
         perturb();
-        if (g_busy.size() <= 16) std::this_thread::sleep_for(std::chrono::microseconds(30));   // small grids: make overlap observable
+        if (g_busy.size() <= 12) std::this_thread::sleep_for(std::chrono::microseconds(20));   // small grids: make overlap observable
         if (okJ && j != i) --g_busy[j];
         if (okI) --g_busy[i];
         logEv(K_EXEC_E, i, j); g_inFlight--;
@@ -393,7 +393,7 @@ int main(int argc, char** argv) {
         int stream = g.below(20);
         uint64_t ys = g.next() % 1000000;
         int th = TH[g.below(5)];                                   // 1..8 threads
-        if (stream == 0) th = g.below(4) == 0 ? 32 : 16;           // small dedicated 16/32-thread stream (all three executors)
+        if (stream == 0) th = g.below(6) == 0 ? 32 : 16;           // small dedicated 16/32-thread stream (all three executors)
         if (stream == 8 && g.coin()) th = 16;
         if (stream == 15 && g.coin()) th = 16;
         if (stream <= 7) {                                         // ParallelExecutor
@@ -401,12 +401,13 @@ int main(int argc, char** argv) {
             std::vector<int> times;
             for (int r = 0; r < rounds; ++r) {
                 int c = g.below(10);
-                times.push_back(c == 0 ? 0 : c == 1 ? g.below(th + 2) : c == 2 ? (g.below(8) == 0 ? 5000 + g.below(5001) : 1000 + g.below(1001)) : g.below(200));
+                times.push_back(c == 0 ? 0 : c == 1 ? g.below(th + 2) : c == 2 ? (args.n > 1000 && g.below(8) == 0 ? 5000 + g.below(5001) : 1000 + g.below(1001)) : g.below(200));
             }
+            if (th == 32) for (int& t : times) t = t % 300;            // 32 threads: short runs only
             peCase(th, ys, times, stream == 0 ? "t16" : "mix");
         } else if (stream <= 14) {                                 // Parallel2DExecutor
             int c = g.below(8);
-            int grid = c == 0 ? g.below(4) : c == 1 ? (g.below(4) == 0 ? 128 : 64) : c == 2 ? 1 + g.below(16) : g.below(65);
+            int grid = c == 0 ? g.below(4) : c == 1 ? (g.below(4) == 0 ? 128 : 64) : c == 2 ? 1 + g.below(12) : g.below(65);
             int rt = g.below(3);
             if (g.below(3) == 0) p2dCase(true, grid, th, rt, ys, 0, "mix");
             else p2dCase(false, grid, g.coin() ? th : 1 + g.below(40), rt, ys, 0, "mix");
